@@ -511,10 +511,20 @@ fn op_mp_bw6(t: &mut Tape<'_>) -> Outcome {
 fn op_batch_check(t: &mut Tape<'_>) -> Outcome {
     use ark_test_curves::bls12_381::{Fq, Fr, G1Affine, G1Projective};
     let mut s = Stream::new(t.u64());
-    let n = size_from(t, 200, &[1, 2, 8, 16, 33]);
+    let n = size_from(t, 600, &[1, 2, 8, 16, 33, 65, 129, 257, 513]);
     let g = G1Projective::generator();
     let mut acc = g * s.field::<Fr>();
-    let bad_at = if t.chance(1, 2) && n > 0 { Some(t.below(n as u64) as usize) } else { None };
+    // the invalid element sits at one of the last positions (a remainder that a chunked split may drop), at the first
+    // position, or anywhere
+    let bad_at = if t.chance(2, 3) && n > 0 {
+        Some(match t.weighted(&[4, 1, 3]) {
+            0 => n - 1 - (t.below(4) as usize).min(n - 1),
+            1 => 0,
+            _ => t.below(n as u64) as usize,
+        })
+    } else {
+        None
+    };
     let mut pts: Vec<G1Affine> = Vec::new();
     for i in 0..n {
         acc = acc.double() + g;
